@@ -252,3 +252,18 @@ def normalise_filter(events):
                 out.append({"ev": "SimError", "t": 0, "err": e["err"]})
         k = j
     return out
+
+
+def normalise_adversary(events):
+    """Normalised events for Trace_Adversary.tla (C06)."""
+    for e in events:
+        ev = e["ev"]
+        t = us(e.get("t", 0))
+        if ev == "Reset":
+            yield {"ev": "Reset", "t": 0}
+        elif ev == "Injected":
+            yield {"ev": "Injected", "t": t, "len": int(e["len"]), "peak": min(BIG, int(e["peak"])), "wall_us": min(BIG, int(e["wall_us"]))}
+        elif ev == "Probe":
+            yield {"ev": "Probe", "t": t, "ok": 1 if e["ok"] else 0}
+        elif ev == "SimError":
+            yield {"ev": "SimError", "t": 0, "err": e["err"]}
